@@ -434,6 +434,8 @@ def finish(result, tier, t0):
         print("VIOLATION property=%s replay=%s" % (prop, path), flush=True)
         print("  detail: %s" % v.msg.replace("\n", "\n    ")[:900], flush=True)
     cov = dict(result.coverage)
+    if result.violations:
+        cov["violation_messages"] = [v.msg[:1500] for v in result.violations[:5]]
     cov["evaluations"] = int(result.evaluations)
     cov["distinct_nontrivial"] = int(result.distinct_nontrivial)
     cov["rule"] = result.rule
